@@ -3,6 +3,7 @@ import CorsVerif.Spec.Fetch
 import CorsVerif.Spec.Denote
 import CorsVerif.Proofs.Accept
 import CorsVerif.Proofs.RoundTrip
+import CorsVerif.Proofs.LexSound
 /-
   C13 — Origin-pattern grammar: documented forms accepted, documented non-forms rejected.
 
@@ -854,6 +855,18 @@ def ext0 : Ext := { idnaXn := fun _ => false, isETLD := fun _ => false, ip6 := f
 example : (parsePattern ext0 (Spec.b "https://example.com:8080")).toOption.map (·.port) = some 8080 := by decide
 example : (Lex.parse (Spec.b "https://example.com:8080")).map (·.port) = some 8080 := by decide
 
+open Accept in
+/-- **Only serialisations are read as origins** (the converse direction): whatever string the request-side
+lexer accepts is `scheme://host[:port]` of the origin it returns, with the host verbatim or in brackets
+and the port the decimal numeral of a number 1-65535. A string that is not a serialised origin is therefore
+never treated like one (this is the predicate the `parse` judge of the checks applies to the real lexer). -/
+theorem C13_parse_sound {s : Bytes} {o : Origin} (h : Lex.parse s = some o) :
+    ∃ hostStr portS, s = o.scheme ++ [58, 47, 47] ++ hostStr ++ portS ∧
+      (hostStr = o.host.value ∨ hostStr = 91 :: o.host.value ++ [93]) ∧
+      ((portS = [] ∧ o.port = 0) ∨ (portS = 58 :: Bytes.itoa o.port ∧ 1 ≤ o.port ∧ o.port ≤ 65535)) :=
+  parse_serialised h
+
+
 #print axioms C13_accept
 #print axioms C13_accept_self
 #print axioms C13_accept_idna
@@ -871,5 +884,6 @@ example : (Lex.parse (Spec.b "https://example.com:8080")).map (·.port) = some 8
 #print axioms C13_reject_file
 #print axioms C13_reject_no_sep
 #print axioms C13_reject_bad_first_byte
+#print axioms C13_parse_sound
 
 end Cors
